@@ -529,6 +529,12 @@ package kv
 //@ preserves fields(github.com/oxia-db/oxia/server.followerController), fields(github.com/oxia-db/oxia/server.leaderController), fields(github.com/oxia-db/oxia/server/wal.reader), fields(github.com/oxia-db/oxia/server/wal.forwardReader), fields(github.com/oxia-db/oxia/server/wal.wal), fields(proto.LogEntry), fields(proto.LogEntryValue), fields(proto.WriteRequests)
 //@ note trusted: db.ProcessWrite (the only implementation) is verified in this package against its own contract
 
+//@ func DB.Get(recv, request) (res, err)
+//@ trusted
+//@ modifies nothing
+//@ ensures err == nil ==> res != nil && fresh(res)
+//@ note trusted: a read; the response object is allocated by the call
+
 //@ func DB.ReadCommitOffset
 //@ trusted
 //@ modifies nothing
